@@ -26,7 +26,9 @@ RULE = ("generated request bodies, line-wise: action/document pairs with LF/CRLF
         "non-objects, broken JSON, decoder-lenient JSON; time fields timestamp/time/ts in ES / RFC3339 / RFC3339Nano at delays "
         "drift, -futureDrift +- {0,1ns,1us,1ms,1s}, far past/future incl. beyond time.Duration; 4 drift configurations; plain/gzip, whole/"
         "chunked body reader; 10+ buffer sizes each in its own process; random metas through the real MarshalBinaryTo/UnmarshalBinary "
-        "(plus truncated / header-corrupted / extended encodings) and the metas payload of accepted requests. non-trivial = body with >= 2 lines exercising at least one "
+        "(plus truncated / header-corrupted / extended encodings) and the metas payload of accepted requests; 100 histories per quick run "
+        "(0-2 accepted requests without surviving document, then one request held inside StoreDocuments while 1-3 others run to completion, "
+        "then sequential ones; GOMAXPROCS default/1/2). non-trivial = body with >= 2 lines exercising at least one "
         "such feature; distinct by request")
 
 
